@@ -140,6 +140,8 @@ def check(ctx, R):
     R.run("C11.b", rule_b, ctx)
     R.run("C11.d", rule_d, ctx)
     R.run("C11.e", rule_e, ctx)
+    from . import preds
+    R.run("C11.p", lambda R, c: preds.rule(R, c, "C11.p", ["has_added", "has_deleted"]), ctx)
     if ctx.tier == "thorough":
         from . import witness
         R.run("C11.c", witness.c11_c, ctx)
